@@ -39,7 +39,8 @@ def strategy(tier, unit):
         "small": st.one_of(st.none(), S.logfl(1e-9, 1e-1)),
         "j": st.integers(0, 23), "k": st.integers(0, 23),
         "abc": st.tuples(S.logfl(1, 30), S.logfl(1, 30), S.logfl(1, 30)).map(list),
-        "ang": st.tuples(S.fl(50, 130), S.fl(50, 130), S.fl(-1, 1)).map(list)})
+        "ang": st.tuples(S.fl(50, 130), S.fl(50, 130), S.fl(-1, 1)).map(list),
+        "dtype": st.sampled_from(["float64", "float64", "float32", "int-if-axis-aligned"])})
 
 
 def exhaustive(ctx, tier):
@@ -125,7 +126,19 @@ def check(case, ctx):
         for i in (j, kk):
             ctx.near("rot.B.perm=B", O.maxabs(R[i] @ B @ P[i] - B) / O.maxabs(B), 1e-9, "pairing/%d" % k,
                      "system %d: rot[%d].B.perm[%d] != B for %s.form_b_mat(%r)" % (k, i, i, mname, cell))
-    ctx.keep("Umis(previous pair)", symmetry.Umis(U2, Q, k))
+    # how the caller types the orientations: float64, single precision (valid by C20), or integers for axis-aligned ones
+    tol_def = 1e-12
+    dt = case.get("dtype", "float64")
+    if dt == "float32":
+        U1, U2 = U1.astype(np.float32), U2.astype(np.float32)
+        tol_def = 1e-5
+        ctx.event("float32-orientations")
+    elif dt == "int-if-axis-aligned":
+        # axis-aligned orientations typed as integers by the caller
+        U1, U2 = O.axis_aligned()[case["j"] % 24].astype(int), O.axis_aligned()[case["k"] % 24].astype(int)
+        Q = O.axis_aligned()[(case["j"] + case["k"]) % 24].copy()
+        ctx.event("integer-orientations")
+    ctx.keep("Umis(previous pair)", symmetry.Umis(U2, np.asarray(Q, U1.dtype) if dt == "float32" else Q, k))
     mis_obj = ctx.keep("Umis", symmetry.Umis(U1, U2, k))
     mis = np.asarray(mis_obj, float)
     if mis.shape != (N, 2):
@@ -136,18 +149,18 @@ def check(case, ctx):
     ang = mis[:, 1]
     if not np.all((ang >= 0) & (ang <= 180)):
         ctx.fail("umis-range", "Umis angles outside [0,180]: %r" % ang.tolist())
-    M = U1.T @ U2
+    M = np.asarray(U1, float).T @ np.asarray(U2, float)
     cosref = np.array([(np.trace(M @ R[i].T) - 1) / 2 for i in range(N)]).clip(-1, 1)
     coss = np.cos(np.radians(ang))
-    ctx.near("umis=angle(U1'U2 rot')", O.maxabs(coss - cosref), 1e-12, "umis-definition",
+    ctx.near("umis=angle(U1'U2 rot')", O.maxabs(coss - cosref) * (1e-12 / tol_def), 1e-12, "umis-definition",
              "Umis angles %r are not the rotation angles of U1'.U2.rot[k]' (cos dev %g)" % (ang.tolist(), O.maxabs(coss - cosref)))
     ctx.nontrivial(k >= 4 and float(np.min(ang)) > 1.0)
     ctx.event("system-%d" % k)
     srt = np.sort(coss)
 
     def cmp(name, V1, V2):
-        a2 = np.asarray(symmetry.Umis(V1, V2, k), float)[:, 1]
-        ctx.near("invariance/" + name, O.maxabs(np.sort(np.cos(np.radians(a2))) - srt), 1e-12, "umis-invariance/" + name,
+        a2 = np.asarray(symmetry.Umis(np.asarray(V1, U1.dtype), np.asarray(V2, U1.dtype), k), float)[:, 1]
+        ctx.near("invariance/" + name, O.maxabs(np.sort(np.cos(np.radians(a2))) - srt) * (1e-12 / tol_def), 1e-12, "umis-invariance/" + name,
                  "system %d: angle multiset changes under %s" % (k, name))
     cmp("U2.rot", U1, U2 @ R[j])
     cmp("U1.rot", U1 @ R[kk], U2)
@@ -157,4 +170,4 @@ def check(case, ctx):
     if not np.array_equal(np.asarray(symmetry.ROTATIONS[k]), np.asarray(symmetry.rotations(k))):
         ctx.fail("cache/%d" % k, "ROTATIONS[%d] no longer equals rotations(%d) after the calls of this case" % (k, k))
     same = np.asarray(symmetry.Umis(U1, U1, k), float)[:, 1]
-    ctx.near("Umis(U,U) contains 0", 1 - math.cos(math.radians(float(np.min(same)))), 1e-12, "umis-self", "Umis(U,U) minimum is %r deg" % float(np.min(same)))
+    ctx.near("Umis(U,U) contains 0", (1 - math.cos(math.radians(float(np.min(same))))) * (1e-12 / tol_def), 1e-12, "umis-self", "Umis(U,U) minimum is %r deg" % float(np.min(same)))
